@@ -276,3 +276,160 @@ def mon_locking(pid, run):
 
 for _p in ("C11", "C12", "C13", "C14", "C15"):
     MONITORS[_p] = mon_locking
+
+
+# ------------------------------------------------------------------------- bridge monitors
+def parse_btc_dump(line):
+    body = line[3:] if line.startswith("=> ") else line
+    d = {}
+    for tok in body.split(" ")[1:]:
+        if "=" in tok:
+            k, v = tok.split("=", 1)
+            d[k] = v
+    p = d.get("params", "0|0|0|0|").split("|")
+    d["_params"] = dict(min=int(p[0]), conf=int(p[1]), rate=int(p[2]), max=int(p[3]))
+    d["_deposited"] = {(x.split("|")[0], int(x.split("|")[1])): int(x.split("|")[2]) for x in _lst(d.get("deposited", "-"))}
+    W = {}
+    for x in _lst(d.get("w", "-")):
+        f = x.split("|")
+        W[int(f[0])] = dict(addr=f[1], amount=int(f[2]), price=int(f[3]), status=int(f[4]), receipt=f[5])
+    d["_w"] = W
+    d["_qdep"] = [x.split("|") for x in _lst(d.get("qdep", "-"))]
+    d["_qpaid"] = [x.split("|") for x in _lst(d.get("qpaid", "-"))]
+    d["_qrej"] = [int(x) for x in _lst(d.get("qrej", "-"))]
+    d["_hashes"] = {int(x.split("|")[0]): x.split("|")[1] for x in _lst(d.get("hashes", "-"))}
+    return d
+
+
+W_EDGES = {1: {1, 3, 2, 4, 5}, 3: {3, 2, 4, 5}, 2: {2, 5}, 4: {4}, 5: {5}}  # pending 1, processing 2, canceling 3, canceled 4, paid 5
+
+
+def mon_bridge(pid, run):
+    hits = []
+    last_w = {}
+    delivered = []  # sys txs delivered with commit=1
+    paid_notices, refund_notices, dep_notices = [], [], []
+    nonce_next = None
+    reused = set()
+    for i, (op, impl) in enumerate(zip(run.ops, run.impl)):
+        kind = op.split(" ")[1]
+        a = kv(op)
+        if kind == "reset":
+            last_w, delivered, paid_notices, refund_notices, dep_notices, nonce_next, reused = {}, [], [], [], [], None, set()
+            continue
+        if kind == "init.btc":
+            nonce_next = int(a["nonce"])
+        if kind == "req.bridge" and crit(impl).startswith("ok"):
+            for it in _lst(a.get("withdraws", "-")):
+                wid = int(it.split("|")[0])
+                if wid in last_w:
+                    reused.add(wid)   # id reuse is excluded by the environment hypothesis (bridge contract counter)
+        if kind == "btc.dequeue" and crit(impl).startswith("ok"):
+            m = re.search(r"txs=(\S+)", impl)
+            txs = _lst(m.group(1) if m else "-")
+            if pid == "C06":
+                kinds = [t.split("|")[0] for t in txs]
+                if kinds.count("nb") > 1 or kinds.count("dep") > 8 or kinds.count("paid") + kinds.count("c2") > 8:
+                    hits.append((i, "per-block cap exceeded: %s" % kinds))
+                order = {"nb": 0, "dep": 1, "paid": 2, "c2": 3}
+                if [order[k] for k in kinds] != sorted(order[k] for k in kinds):
+                    hits.append((i, "system transactions out of kind order"))
+                if nonce_next is not None:
+                    for k, t in enumerate(txs):
+                        if int(t.split("|")[1]) != nonce_next + k:
+                            hits.append((i, "nonce gap/reuse: expected %d got %s" % (nonce_next + k, t.split("|")[1])))
+                            break
+            if a.get("commit") == "1":
+                if nonce_next is not None:
+                    nonce_next += len(txs)
+                for t in txs:
+                    f = t.split("|")
+                    if f[0] == "paid":
+                        paid_notices.append(int(f[2]))
+                    elif f[0] == "c2":
+                        refund_notices.append(int(f[2]))
+                    elif f[0] == "dep":
+                        dep_notices.append((f[2], int(f[3])))
+        if kind != "dump.btc" or not impl.startswith("=> btc "):
+            continue
+        d = parse_btc_dump(impl)
+        if pid == "C20":
+            p = d["_params"]
+            if p["rate"] >= 10000 or p["min"] < 1000 or p["conf"] < 1:
+                hits.append((i, "bridge parameters out of bounds: %s" % p))
+        if pid in ("C03", "C20"):
+            for q in d["_qdep"]:
+                gross = d["_deposited"].get((q[1], int(q[2])))
+                amt, tax = int(q[3]), int(q[4])
+                if gross is None:
+                    hits.append((i, "queued credit %s:%s not in the credited set" % (q[1][:16], q[2])))
+                elif amt + tax != gross or tax >= gross or amt <= 0:
+                    hits.append((i, "credit not value-exact: amount %d tax %d gross %d" % (amt, tax, gross)))
+                elif gross < 1000:
+                    hits.append((i, "dust deposit credited: %d" % gross))
+        if pid == "C03":
+            allc = dep_notices + [(q[1], int(q[2])) for q in d["_qdep"]]
+            if len(set(allc)) != len(allc):
+                hits.append((i, "a (txid, output) was credited twice"))
+        if pid == "C05":
+            W = d["_w"]
+            for wid, w in W.items():
+                if wid in reused:
+                    continue
+                old = last_w.get(wid)
+                if old is not None and w["status"] not in W_EDGES.get(old, set()):
+                    hits.append((i, "withdrawal %d moved %d -> %d (not an allowed edge)" % (wid, old, w["status"])))
+            for wid in last_w:
+                if wid not in W:
+                    hits.append((i, "withdrawal %d disappeared" % wid))
+            last_w = {wid: w["status"] for wid, w in W.items()}
+            paid_all = paid_notices + [int(q[0]) for q in d["_qpaid"]]
+            ref_all = refund_notices + d["_qrej"]
+            for wid in set(paid_all) | set(ref_all):
+                if wid in reused:
+                    continue
+                if paid_all.count(wid) + ref_all.count(wid) > 1:
+                    hits.append((i, "withdrawal %d notified more than once (paid %d, refund %d)" % (wid, paid_all.count(wid), ref_all.count(wid))))
+            for wid, w in W.items():
+                if wid in reused:
+                    continue
+                if w["status"] == 5 and paid_all.count(wid) != 1:
+                    hits.append((i, "paid withdrawal %d has %d paid notices" % (wid, paid_all.count(wid))))
+                if w["status"] == 4 and ref_all.count(wid) != 1:
+                    hits.append((i, "cancelled withdrawal %d has %d refund notices" % (wid, ref_all.count(wid))))
+        if pid == "C06":
+            hs = sorted(d["_hashes"])
+            if hs and hs != list(range(hs[0], hs[-1] + 1)):
+                hits.append((i, "voted block hashes have a gap"))
+            if hs and int(d.get("tip", "0")) != hs[-1]:
+                hits.append((i, "tip is not the highest voted height"))
+    return hits[:20]
+
+
+for _p in ("C03", "C05", "C06", "C20"):
+    MONITORS[_p] = mon_bridge
+
+
+def div_exact_kinds(kinds):
+    def f(w):
+        return w["op"].split(" ")[1] in kinds
+    return f
+
+
+DIV_RULES["C17"] = div_exact_kinds({"addr.decode", "addr.deposit"})
+DIV_RULES["C20"] = div_exact_kinds({"btc.validateparams"})
+
+
+def div_c03(w):
+    """model accepts a deposit batch only under the conditions of C03_accept_implies; the implementation
+    crediting what the model rejects is a deposit credited without them"""
+    return w["op"].split(" ")[1] == "tx.deposits" and crit(w["impl"]) == "ok" and crit(w["model"]) != "ok"
+
+
+def div_c05(w):
+    k = w["op"].split(" ")[1]
+    return k in ("tx.process", "tx.replace", "tx.finalize", "tx.approve") and crit(w["impl"]) == "ok" and crit(w["model"]) != "ok"
+
+
+DIV_RULES["C03"] = div_c03
+DIV_RULES["C05"] = div_c05
